@@ -54,6 +54,7 @@ def run(ck):
     ck.rule("C03.R5", "enter/exit pairing of guards, incl. unwinding", floor=6)
     ck.rule("C03.R6", "enter guards are !Send", floor=2)
     ck.rule("C03.R7", "Instrumented: span entered around every inner poll and the inner drop", floor=4)
+    ck.rule("C03.R10", "what a span handle tells its Dispatch reaches the collector as the same notification: Dispatch::enter/exit/clone_span/try_close/new_span/record/record_follows_from forward 1:1 (as C09.R4)", floor=7)
     ck.rule("C03.R9", "collector wrappers (Box, Arc, Layered, fmt::Collector, ...) forward every span lifecycle method (as C09.R1/R2)", floor=40)
     ck.rule("C03.R8", "a disabled span macro reaches no collector call (expansion fixtures)", floor=60)
     r1_r2(ck, F)
@@ -68,6 +69,7 @@ def run(ck):
     from rules import C09
     C09.wrapper_rules(ck, F, rids={"R0": "C03.R9", "R1": "C03.R9", "R2": "C03.R9", "R3": "C03.R9"}, traits=["tracing_core::collect::Collect"],
                       only={"new_span", "clone_span", "try_close", "drop_span", "enter", "exit", "record", "record_follows_from", "current_span"})
+    C09.dispatch_forwarding(ck, F, rid="C03.R10", only={"enter", "exit", "clone_span", "try_close", "drop_span", "new_span", "record", "record_follows_from"})
 
 
 def r1_r2(ck, F):
